@@ -448,6 +448,16 @@ fn render_preorder(out: &str, s: &oracle::S) -> Option<String> {
     if structs.is_empty() {
         return None;
     }
+    {
+        // two structs of one name (element names that collide as Rust identifiers: C04's business): a field type no longer identifies a position, no verdict
+        let mut names: Vec<&String> = structs.iter().map(|x| &x.0).collect();
+        names.sort();
+        let n = names.len();
+        names.dedup();
+        if names.len() != n {
+            return None;
+        }
+    }
     fn strip<'a>(t: &'a str, w: &str) -> Option<&'a str> {
         t.strip_prefix(w).and_then(|r| r.strip_prefix('<')).and_then(|r| r.strip_suffix('>'))
     }
@@ -669,6 +679,20 @@ fn sequences(tier: &str, seed: u64, mut f: impl FnMut(&[Vec<u8>]) -> bool) {
             return;
         }
     }
+    // seeded random sequences over names that collide once they are turned into Rust identifiers (item / Item, unit_price / UnitPrice)
+    let mut rngc = Rng(seed ^ 0xc011);
+    let nc = if thorough { 12000 } else { 1500 };
+    for _ in 0..nc {
+        let k = 1 + rngc.below(3);
+        let mut xs = Vec::new();
+        for _ in 0..k {
+            let d = random_doc(&mut rngc, &["item", "Item", "unit_price", "UnitPrice", "b"], &["id", "Id", "x"], 3, 10);
+            xs.push(write_doc(&d, &st).into_bytes());
+        }
+        if f(&xs) {
+            return;
+        }
+    }
     // seeded random sequences of larger documents
     let mut rng = Rng(seed ^ 0x5eed);
     let n = if thorough { 60000 } else { 3000 };
@@ -880,10 +904,26 @@ fn search_c05(tier: &str, seed: u64) {
         stats.note(&key);
         if let Some(e) = check_c05(&xs, if thorough { 24 } else { 12 }) {
             witness_docs("C05", &xs, &e);
+            mark_witness();
             break;
         }
     }
-    stats.print("seeded random sequences of 1-2 documents with repeated parents holding varying subsets of children whose field identifiers collide (Foo/foo/FOO/f_o_o/..); each parsed and rendered 13-25 times in one process (every 4th repetition in a fresh thread; every HashMap instance gets a fresh seed) with three option sets and compared byte for byte, including the Debug form of the tree; preceded by name-hint shapes (one name recurring at 2-5 places below chains of 1-6 distinct ancestors, next to 6 unique names), each rendered 31 times", &sample);
+    // random trees in which struct names recur at several positions and collide only after (repeated) PascalCase conversion
+    if stats_no_witness() {
+        let mut rng3 = Rng(seed ^ 0xc05c);
+        let n3 = if thorough { 3000 } else { 400 };
+        for _ in 0..n3 {
+            let d = random_doc(&mut rng3, &["e_mail", "email", "EMail", "x-ray", "xray", "iPhone", "iphone", "b", "c"], &["id"], 3, 12);
+            let xs = vec![write_doc(&d, &st).into_bytes()];
+            stats.note(&String::from_utf8_lossy(&xs[0]));
+            if let Some(e) = check_c05(&xs, if thorough { 24 } else { 12 }) {
+                witness_docs("C05", &xs, &e);
+                mark_witness();
+                break;
+            }
+        }
+    }
+    stats.print("seeded random sequences of 1-2 documents with repeated parents holding varying subsets of children whose field identifiers collide (Foo/foo/FOO/f_o_o/..); each parsed and rendered 13-25 times in one process (every 4th repetition in a fresh thread; every HashMap instance gets a fresh seed) with three option sets and compared byte for byte, including the Debug form of the tree; preceded by name-hint shapes (one name recurring at 2-5 places below chains of 1-6 distinct ancestors, next to 6 unique names), each rendered 31 times; followed by seeded random trees (12 elements, depth 3) over names that collide only after PascalCase conversion (e_mail / email / EMail, x-ray / xray, iPhone / iphone) and recur at several positions", &sample);
 }
 
 // ------------------------------------------------------------------------------------------------ C06
